@@ -2,6 +2,8 @@
 
 Everything here is generic MIR plumbing; no rule lives in this file.
 """
+import sys
+sys.setrecursionlimit(20000)
 import re
 from collections import defaultdict
 
@@ -360,7 +362,7 @@ class Fn:
         """
         if l in self._expr_cache:
             return self._expr_cache[l]
-        if depth > 40:
+        if depth > 400:
             return ('var', l, self.local_name(l))
         self._expr_cache[l] = ('var', l, self.local_name(l))  # cycle guard
         res = None
@@ -376,7 +378,7 @@ class Fn:
                 if d[0] == 'stmt':
                     res = self.expr_of_rvalue(d[3], depth + 1)
                 elif d[0] == 'call':
-                    res = self.expr_of_call(d[2], depth + 1)
+                    res = self.expr_of_call(d[2], depth + 1, site=d[1])
                 else:
                     res = ('resume',)
             else:
@@ -396,12 +398,13 @@ class Fn:
         'core::future::into_future::IntoFuture::into_future', 'core::hint::must_use',
     )
 
-    def expr_of_call(self, t, depth=0):
+    def expr_of_call(self, t, depth=0, site=None):
         name = t['func'].get('fn') or '<indirect>'
         args = [self.expr_of_operand(a, depth + 1) for a in t['args']]
         if name in self.TRANSPARENT_CALLS and args:
             return args[0]
-        return ('call', name, args)
+        # the 4th element identifies the call site: two calls with equal arguments are two different values
+        return ('call', name, args, site)
 
     def expr_of_operand(self, o, depth=0):
         k = o['k']
